@@ -9,8 +9,8 @@ FR = gens.EXTRACT_ALPHA + ['<div>', '<a href="x">', '</p>', '<br/>', '<img src=y
                            '<', 'x="1"', "y='2'", 'div.cls#id', 'p{a}', '(a+b)*2', '= ', '<a b=c d>']
 OPTS = [{}, {'type': 'stylesheet'}, {'lookAhead': False}, {'prefix': '<'}, {'prefix': 'em:', 'lookAhead': False}, {'prefix': '<', 'type': 'stylesheet'}]
 LEFT = ['', ' ', 'foo ', '\t', 'a b\t', '<p>', '<div class="x">', '</li>', '<br/>', '<img src=y alt> ', 'x = ', '<a b=c d>']
-RIGHT = ['', ' ', ' text', '<b>', '</p>', 'x']
-CSS_ABBRS = ['p10', 'm10-20', 'bd1-s#f.5', 'c#f', 'fl', 'pos:a', 'm-10--20', 'w100p', 'lh1.5', 'bg+', 'p10!', 'd:n+m10', 'trf:r', 'op.5', '@m', 'c#e7bc0b', 'z10', 'bdrs5']
+RIGHT = ['', ' ', ' text', '<b>', '</p>', 'x', '`', '` x', '`]', '\u00b4']
+CSS_ABBRS = ['p10', 'm10-20', 'bd1-s#f.5', 'c#f', 'fl', 'pos:a', 'm-10--20', 'w100p', 'lh1.5', 'bg+', 'p10!', 'd:n+m10', 'trf:r', 'op.5', '@m', 'c#e7bc0b', 'z10', 'bdrs5', 'w100%', 'm10%-20%', 'p5%', 'h50%!', 'lh120%+m0']
 
 
 def rand_tag(rnd):
